@@ -20,6 +20,7 @@ int main(int argc, char **argv)
     snprintf(fname, sizeof fname, "%s/c04fn-%d.hdf", argv[2], (int)getpid());
     fid = Hopen(fname, DFACC_CREATE, 0);
     if (fid == FAIL) return 2;
+    long ncase = 0;
     while (fscanf(f, "%7s", kw) == 1) {
         long        nt, nd, i, d[MAXR], c[MAXR];
         HCHUNK_DEF  chunk[1];
@@ -30,6 +31,11 @@ int main(int argc, char **argv)
         accrec_t   *arec;
         chunkinfo_t *info;
         if (fscanf(f, "%ld %ld", &nt, &nd) != 2 || nd < 1 || nd > MAXR) return 2;
+        if (++ncase % 300 == 0) { /* keep the DD list short: start a fresh file */
+            Hclose(fid);
+            fid = Hopen(fname, DFACC_CREATE, 0);
+            if (fid == FAIL) return 2;
+        }
         for (i = 0; i < nd; i++) if (fscanf(f, "%ld", &d[i]) != 1) return 2;
         for (i = 0; i < nd; i++) if (fscanf(f, "%ld", &c[i]) != 1) return 2;
         memset(chunk, 0, sizeof chunk);
